@@ -26,6 +26,9 @@ def _globals(cfg):
     return {("verde.blockreduce", "block_split"): stubs.BlockSplitContract()}
 
 
+HALF = Fraction(1, 2)
+
+
 def _at_least(k, conds):
     "at least k of the conditions hold"
     import itertools
@@ -113,15 +116,41 @@ def h_blockreduce(ctx):
     e = ctx.reals("e", npts)
     n = ctx.reals("n", npts)
     x = ctx.reals("x", npts)
+    nn_, ne_ = shape
+    if cfg.get("adjust") == "region":
+        # blocks of exactly the requested size laid out from (W, S); their number is the nearest integer to
+        # extent / spacing (ties excluded), so the tiled region ends at W + ne*s_east, S + nn*s_north
+        se, sn = ctx.real("spacing_e"), ctx.real("spacing_n")
+        ctx.assume(se > 0)
+        ctx.assume(sn > 0)
+        ctx.assume(And(gt(ee - w, (ne_ - HALF) * se), lt(ee - w, (ne_ + HALF) * se), gt(no - s, (nn_ - HALF) * sn), lt(no - s, (nn_ + HALF) * sn)))
+        we_, hn_ = se, sn
+    else:
+        we_, hn_ = (ee - w) / ne_, (no - s) / nn_
+    if cfg.get("region") == "inferred":
+        ctx.assume(And(eq(w, smin(list(e))), eq(ee, smax(list(e))), eq(s, smin(list(n))), eq(no, smax(list(n)))))
+    loose = cfg.get("outside") or cfg.get("region") == "inferred"
     for p in range(npts):
-        ctx.assume(stubs.in_block(ctx, e[p], n[p], region, shape, members[p]))
+        if loose:
+            # border blocks reach outwards: points on or beyond the region's edge belong to the nearest border block
+            i, j = divmod(members[p], ne_)
+            ctx.assume(And(True if j == 0 else gt(e[p], w + j * we_), True if j == ne_ - 1 else lt(e[p], w + (j + 1) * we_), True if i == 0 else gt(n[p], s + i * hn_), True if i == nn_ - 1 else lt(n[p], s + (i + 1) * hn_)))
+        elif cfg.get("adjust") == "region":
+            i, j = divmod(members[p], ne_)
+            ctx.assume(And(gt(e[p], w + j * we_), lt(e[p], w + (j + 1) * we_), gt(n[p], s + i * hn_), lt(n[p], s + (i + 1) * hn_)))
+        else:
+            ctx.assume(stubs.in_block(ctx, e[p], n[p], region, shape, members[p]))
     data = [ctx.reals("d%d" % c, npts) for c in range(ncomp)]
     weights = None
     if cfg["weighted"]:
         weights = [ctx.reals("w%d" % c, npts) for c in range(ncomp)]
         for wc in weights:
             for v in wc:
-                ctx.assume(v > 0)
+                ctx.assume(v >= 0 if cfg.get("zero_w") else v > 0)
+            if cfg.get("zero_w"):
+                # zero weights are legitimate (outliers switched off) as long as every block keeps some weight
+                for b in set(members):
+                    ctx.assume(sum(wc[p] for p in range(npts) if members[p] == b) > 0)
     if cfg.get("cancel"):
         # special values: the data of a block cancel (sum exactly zero) - "contains data" is not "total != 0"
         for b in set(members):
@@ -141,12 +170,15 @@ def h_blockreduce(ctx):
     data2 = arrs[3 : 3 + ncomp]
     weights2 = arrs[3 + ncomp :] if weights else None
     kw = {}
-    if cfg.get("use_spacing"):
+    if cfg.get("adjust") == "region":
+        kw["spacing"] = (sn, se)
+        kw["adjust"] = "region"
+    elif cfg.get("use_spacing"):
         # spacing chosen so that the layout is the same (extent / blocks per axis)
         kw["spacing"] = ((no - s) / shape[0], (ee - w) / shape[1])
     else:
         kw["shape"] = shape
-    br = vd.BlockReduce(_reduction(ctx, red), region=region, center_coordinates=cfg.get("center", False), drop_coords=cfg.get("drop", True), **kw)
+    br = vd.BlockReduce(_reduction(ctx, red), region=None if cfg.get("region") == "inferred" else region, center_coordinates=cfg.get("center", False), drop_coords=cfg.get("drop", True), **kw)
     darg = tuple(data2) if ncomp > 1 else data2[0]
     warg = None if weights2 is None else (tuple(weights2) if ncomp > 1 else weights2[0])
     params_before = dict(br.get_params())
@@ -169,7 +201,7 @@ def h_blockreduce(ctx):
             ctx.claim("value = reduction over exactly the block's members (own weights, own component), ascending block order", _match(outs[c][bi], _expected(red, [data[c][p] for p in idx], ws)))
         if cfg.get("center"):
             i, j = divmod(b, ne)
-            ctx.claim("center_coordinates: centre of that very block", And(eq(coords[0][bi], w + (j + Fraction(1, 2)) * (ee - w) / ne), eq(coords[1][bi], s + (i + Fraction(1, 2)) * (no - s) / nn)))
+            ctx.claim("center_coordinates: centre of that very block", And(eq(coords[0][bi], w + (j + Fraction(1, 2)) * we_), eq(coords[1][bi], s + (i + Fraction(1, 2)) * hn_)))
         else:
             ctx.claim("coordinates = same reduction of the member coordinates", And(_match(coords[0][bi], _expected(red, [e[p] for p in idx])), _match(coords[1][bi], _expected(red, [n[p] for p in idx]))))
         if ncoord == 3:
@@ -230,6 +262,11 @@ def _cfg(tier, seed):
     out.append({"shape": (2, 2), "members": [3, 0, 3, 1], "ncomp": 1, "reduction": "sum", "weighted": False, "cancel": True})
     out.append({"shape": (1, 3), "members": [2, 0, 2], "ncomp": 2, "reduction": "mean", "weighted": False, "cancel": True})
     out.append({"shape": (2, 2), "members": [3, 0, 1, 0], "ncomp": 1, "reduction": "sum", "weighted": False, "pshape": (2, 2), "mem": "T"})
+    out.append({"shape": (1, 2), "members": [1, 0, 1], "ncomp": 1, "reduction": "sum", "weighted": False, "outside": True})
+    out.append({"shape": (2, 2), "members": [3, 0, 3], "ncomp": 1, "reduction": "mean", "weighted": False, "center": True, "drop": False})
+    out.append({"shape": (1, 2), "members": [1, 0, 0, 1], "ncomp": 1, "reduction": "average", "weighted": True, "zero_w": True})
+    out.append({"shape": (2, 1), "members": [1, 0, 1], "ncomp": 1, "reduction": "sum", "weighted": False, "region": "inferred", "center": True})
+    out.append({"shape": (1, 2), "members": [1, 0, 1], "ncomp": 1, "reduction": "mean", "weighted": False, "adjust": "region", "center": True})
     if tier == "thorough":
         out.append({"shape": (2, 2), "members": [0, 3, 3, 1], "ncomp": 3, "reduction": "average", "weighted": True, "drop": False})
         out.append({"shape": (2, 2), "members": [0, 3, 3, 1], "ncomp": 3, "reduction": "median", "weighted": False, "center": True})
